@@ -7,6 +7,7 @@
   Core-only.
 -/
 import BMV.Basm
+import BMV.BasmTempl
 import BMV.Lines
 namespace BMV.BasmText
 open BMV BMV.Bits BMV.Basm BMV.Lines
@@ -113,6 +114,11 @@ structure PState where
   pending : List String := []      -- labels waiting for their line (latest first, like `isSymbolled`)
   pendingMode : Option IoMode := none   -- line-level `iomode` waiting for its line (like `lineMeta`)
   pendingMeta : Bool := false           -- some line-level metadata is waiting
+  items : List TItem := []              -- the current section as template items (same lines, operands may be parameters)
+  ifOpen : Option (String × List TLine) := none   -- inside `{{if .Params.<name>}}` … `{{end}}`
+  isTempl : Bool := false               -- the current section has a template construct
+  templates : List TSection := []
+  params : List (String × List (String × Arg)) := []
   bad : Bool := false
 deriving Inhabited
 
@@ -136,8 +142,12 @@ def pstep (st : PState) (raw : String) : PState :=
     | some d => { st with curData := none, src := { st.src with datas := st.src.datas ++ [d] } }
     | none =>
     match st.cur with
-    | some s => if st.pending.isEmpty && !st.pendingMeta then { st with cur := none, src := { st.src with sections := st.src.sections ++ [s] } }
-                else { st with bad := true }
+    | some s =>
+      if !st.pending.isEmpty || st.pendingMeta || st.ifOpen.isSome then { st with bad := true }
+      else if st.isTempl then
+        { st with cur := none, items := [], isTempl := false,
+                  templates := st.templates ++ [{ name := s.name, iomode := s.iomode, items := st.items }] }
+      else { st with cur := none, items := [], src := { st.src with sections := st.src.sections ++ [s] } }
     | none => { st with bad := true }
   | "%meta" :: cmd :: obj :: rest =>
     let ps := parsePairs ("".intercalate rest)
@@ -153,15 +163,23 @@ def pstep (st : PState) (raw : String) : PState :=
         let mode := match get "iomode" with | some v => parseMode? v | none => st.src.iomode
         { st with src := { st.src with rsize := rs, iomode := mode } }
     else if cmd = "cpdef" then
-      match ps with
-      | [("romcode", sec)] =>
-        if st.src.cps.any (·.name == obj) then { st with bad := true }
-        else { st with src := { st.src with cps := st.src.cps ++ [{ name := obj, romcode := sec }] } }
-      | [("romcode", sec), ("romdata", dsec)] =>
-        if st.src.cps.any (·.name == obj) then { st with bad := true }
-        else { st with src := { st.src with cps := st.src.cps ++ [{ name := obj, romcode := sec }],
-                                            cpData := st.src.cpData ++ [(obj, dsec)] } }
-      | _ => { st with bad := true }
+      -- `romcode:` (+ `romdata:`); every key the assembler does not know is a parameter of the processor (templates);
+      -- the other keys it knows (ramcode, ramdata, romsize, ramsize, execmode, fragcollapse) are outside the subset
+      let known := ["romcode", "romdata"]
+      let outside := ["ramcode", "ramdata", "romsize", "ramsize", "execmode", "fragcollapse"]
+      let user := ps.filter fun p => !known.contains p.1
+      let uvals := user.mapM fun p => (parseArg p.2).map fun a => (p.1, a)
+      match get "romcode", uvals with
+      | some sec, some uv =>
+        if st.src.cps.any (·.name == obj) || ps.any (fun p => outside.contains p.1) ||
+           (ps.filter (·.1 == "romcode")).length ≠ 1 || (ps.filter (·.1 == "romdata")).length > 1 then { st with bad := true }
+        else
+          { st with src := { st.src with cps := st.src.cps ++ [{ name := obj, romcode := sec }],
+                                         cpData := match get "romdata" with
+                                           | some d => st.src.cpData ++ [(obj, d)]
+                                           | none => st.src.cpData },
+                    params := if uv.isEmpty then st.params else st.params ++ [(obj, uv)] }
+      | _, _ => { st with bad := true }
     else if cmd = "ioatt" then
       match get "cp", get "type", (get "index").bind canonicalNat? with
       | some cp, some ty, some idx =>
@@ -204,19 +222,53 @@ def pstep (st : PState) (raw : String) : PState :=
           { st with pending := if lbl.isEmpty then st.pending else lbl :: st.pending,
                     pendingMode := mode, pendingMeta := st.pendingMeta || !rest.isEmpty }
         else { st with bad := true }
+      else if op == "{{if" then
+        -- `{{if .Params.<name>}}` on a line of its own opens a block (not nested; nothing may be pending)
+        match rest with
+        | [c] =>
+          let nm := ((c.drop 8).dropEnd 2).toString
+          if c.startsWith ".Params." && c.endsWith "}}" && !nm.isEmpty && nm.all isIdentChar &&
+             st.ifOpen.isNone && st.pending.isEmpty && !st.pendingMeta then
+            { st with ifOpen := some (nm, []), isTempl := true }
+          else { st with bad := true }
+        | _ => { st with bad := true }
+      else if op == "{{end}}" then
+        match st.ifOpen with
+        | some (nm, body) =>
+          if rest.isEmpty && st.pending.isEmpty && !st.pendingMeta then
+            { st with ifOpen := none, items := st.items ++ [.ifp nm body] }
+          else { st with bad := true }
+        | none => { st with bad := true }
       else
         let argToks := if rest.isEmpty then [] else ((" ".intercalate rest).splitOn ",").map fun a => a.trimAscii.toString
-        match argToks.mapM parseArg with
+        -- an operand is a plain one, or `{{.Params.<name>}}` standing for a whole operand
+        let targ (t : String) : Option TArg :=
+          if t.startsWith "{{.Params." && t.endsWith "}}" then
+            let nm := ((t.drop 10).dropEnd 2).toString
+            if !nm.isEmpty && nm.all isIdentChar then some (.param nm) else none
+          else (parseArg t).map .arg
+        match argToks.mapM targ with
         | none => { st with bad := true }
-        | some args =>
+        | some targs =>
           -- metadata in front of the `entry` directive would go to the directive: not read
           if op == "entry" && st.pendingMeta then { st with bad := true } else
-          let l : Line := { labels := st.pending, op := op, args := args, iomode := st.pendingMode }
-          { st with pending := [], pendingMode := none, pendingMeta := false, cur := some { s with lines := s.lines ++ [l] } }
+          let tl : TLine := { labels := st.pending, op := op, args := targs, iomode := st.pendingMode }
+          let hasParam := targs.any fun a => match a with | .param _ => true | .arg _ => false
+          let plain : List Arg := targs.filterMap fun a => match a with | .arg x => some x | .param _ => none
+          let l : Line := { labels := st.pending, op := op, args := plain, iomode := st.pendingMode }
+          let st := { st with pending := [], pendingMode := none, pendingMeta := false, isTempl := st.isTempl || hasParam }
+          match st.ifOpen with
+          | some (nm, body) => { st with ifOpen := some (nm, body ++ [tl]) }
+          | none => { st with items := st.items ++ [.line tl], cur := some { s with lines := s.lines ++ [l] } }
 
-def parseSource (lines : List String) : Option Source :=
+/-- the text as a source with template sections and processor parameters -/
+def parseTSource (lines : List String) : Option TSource :=
   let st := lines.foldl pstep {}
-  if st.bad || st.cur.isSome || st.curData.isSome then none else some st.src
+  if st.bad || st.cur.isSome || st.curData.isSome then none
+  else some { base := st.src, templates := st.templates, params := st.params }
+
+/-- the plain source the model works on: the text, parsed and instantiated per processor -/
+def parseSource (lines : List String) : Option Source := (parseTSource lines).bind instantiate
 
 /-- the `cpdef` names and the `ioatt` lines of ANY basm text (sections, data, shared objects are
     skipped): what the wiring of the emitted machine is compared with.  `none` when the text creates
